@@ -1,0 +1,11 @@
+//go:build verif
+
+package hlsl
+
+import "github.com/gogpu/naga/hlsl/internal/codegen"
+
+type VerifNamer = codegen.VerifNamer
+
+func NewVerifNamer() *VerifNamer                       { return codegen.NewVerifNamer() }
+func VerifKeywords() (sensitive, insensitive []string) { return codegen.VerifKeywords() }
+func VerifPreReserved() []string                       { return codegen.VerifPreReserved() }
